@@ -34,10 +34,11 @@ def scenarios(ctx):
     r = ctx.rng
     A, G = [], []
     ti = 0
-    for sh in [(0,), (3,), (0, 2), (2, 2)]:
+    ashapes = [(0,), (3,), (0, 2), (2, 2)] + ([] if ctx.quick else [(1,), (2, 1, 2), (0, 1), (4, 3), (7,), (0, 2, 2)])
+    for sh in ashapes:
         tail = sh[1:]
         ops = []
-        for n in (1, 2, 3):
+        for n in ((1, 2, 3) if ctx.quick else (1, 2, 3, 4)):
             ops.append(('iter%d' % n, None, n))
             for pos in range(n):
                 ops.append(('fail%d@%d' % (n, pos), pos, n))
@@ -67,9 +68,11 @@ def scenarios(ctx):
     g = rhistory_case(r, 'float32', 'little', (), 'int64', [2, 1], ['ms'], metadata={'fs': 20000, 'tag': 'x'})
     g['ops'] = [dict(op='metaset', value={'fs': 44100})]
     G.append(g)
-    for start in [None, [2, 0, 1], [1]]:
-        for atom in [(), (2,)]:
-            for n in (1, 2, 3):
+    rstarts = [None, [2, 0, 1], [1]] + ([] if ctx.quick else [[0, 0], [3, 1, 0, 2], [1, 1, 1, 1, 1, 1]])
+    ratoms = [(), (2,)] + ([] if ctx.quick else [(2, 3), (1,)])
+    for start in rstarts:
+        for atom in ratoms:
+            for n in ((1, 2, 3) if ctx.quick else (1, 2, 3, 4)):
                 for pos in [None] + list(range(n)):
                     ti += 1
                     if ctx.quick and ti % 2:
